@@ -146,6 +146,7 @@ class Server:
             'moduli_by_alg': None,     # optional: gex algorithm name -> moduli (overrides 'moduli' for that algorithm)
             'kexinit_pad': None,       # padding length of the KEXINIT packet (None = minimal)
             'faults': [],              # [what, conn_idx | '*', fault]
+            'reply_delay': None,       # seconds slept before every send (engine B only)
             'probe_faults': None,      # {host-key name asked for by the client: fault applied to that KEXDH reply}
             'rate': 'normal',          # behaviour towards non-blocking (rate-test) connections
         }
@@ -220,6 +221,10 @@ class Server:
             return ge[0] if ge else cand[-1]
         if self.gex_style == 'roundup':
             cand = [m for m in ms if m >= mn]
+            return cand[0] if cand else (ms[-1] if ms else None)
+        if self.gex_style == 'prefup':
+            # smallest group not below the preferred size, whatever the maximum says (largest one if there is none)
+            cand = [m for m in ms if m >= pref]
             return cand[0] if cand else (ms[-1] if ms else None)
         if self.gex_style == 'openssh':
             mn2, mx2, pref2 = max(mn, 2048), min(mx, 8192), min(max(pref, 2048), 8192)
